@@ -128,6 +128,71 @@ def check_relabel_map(res, drv, rng, count, nmax):
             res.branch(["map:self" if -1 in m else "map:matcher"])
 
 
+def check_relabel_map_named(res, drv, rng, count, nmax):
+    """`get_relabel_map` on networkx graphs whose node *names* are not 0..n-1 and whose insertion order is not the sorted order
+    (user targets named 1..n, scrambled construction order, names exchanged between positions): the reported map, read as a map
+    between the names, must still be an isomorphism.  Half of the cases have equal adjacency matrices *in their own node order*
+    (the early-return branch of the code) although the names at equal positions differ."""
+    import networkx as nx
+    from graphiq.utils.relabel_module import get_relabel_map
+
+    def named_graph(A, names, order):
+        g = nx.Graph()
+        g.add_nodes_from(names[i] for i in order)
+        n = len(A)
+        g.add_edges_from((names[i], names[j]) for i in range(n) for j in range(i + 1, n) if A[i][j])
+        return g
+
+    for _ in range(count):
+        n = rng.randrange(2, nmax + 1)
+        A = gu.structured_graph(rng, n)
+        off = rng.choice([0, 1, 1, 5])
+        names1 = [i + off for i in range(n)]
+        ord1 = gu.random_perm(rng, n) if rng.random() < 0.7 else list(range(n))
+        if rng.random() < 0.5:
+            # same matrix in own order: position k of g2 carries another name than position k of g1
+            p = gu.random_perm(rng, n)
+            B = gu.permute(A, p)          # B[p[i]][p[j]] = A[i][j]: index i of A is index p[i] of B
+            off2 = rng.choice([0, 0, 1])
+            names2 = [i + off2 for i in range(n)]
+            ord2 = [p[i] for i in ord1]   # position k of g2 = image of position k of g1
+            kind = "same-matrix"
+        else:
+            p = gu.random_perm(rng, n)
+            B = gu.permute(A, p)
+            off2 = rng.choice([0, 1])
+            names2 = [i + off2 for i in range(n)]
+            ord2 = gu.random_perm(rng, n)
+            kind = "scrambled"
+        g1, g2 = named_graph(A, names1, ord1), named_graph(B, names2, ord2)
+        inp = {"a": gu.adj_args(A), "b": gu.adj_args(B, "b", with_n=False), "names1": names1, "order1": ord1, "names2": names2, "order2": ord2, "kind": kind}
+        res.evaluations += 1
+        res.count("sizes", f"map-named:n={n}")
+        try:
+            m = get_relabel_map(g1, g2)
+        except Exception as e:  # noqa: BLE001
+            viol(res, f"get_relabel_map:raises:{err_class(e)}", "no relabel map reported for two isomorphic graphs (named nodes)", input=inp)
+            continue
+        mm = {k: v for k, v in m.items() if k != -1}
+        idx2 = {nm: i for i, nm in enumerate(names2)}
+        try:
+            mi = {i: idx2[mm[names1[i]]] for i in range(n)}
+            ok = gu.is_iso_map(A, B, mi)
+        except KeyError:
+            ok = False
+        if not ok:
+            viol(res, "get_relabel_map:not-an-isomorphism", "the reported relabel map must be an isomorphism between the two graphs (node names other than 0..n-1 / scrambled insertion order)",
+                 input=inp, impl=str(m)[:300])
+            continue
+        rep = drv.ask(f"graph.isomap {inp['a']} {inp['b']} map={gu.seq_str([mi[u] for u in range(n)])}")
+        if rep.get("valid") != "1":
+            res.exact_break("graph.isomap", input=inp, impl=str(mi), model=rep["_raw"][:100])
+        else:
+            res.traces_validated += 1
+            res.nontrivial("map-named", inp["a"], inp["b"], tuple(ord1), tuple(ord2))
+            res.branch(["map-named:self" if -1 in m else "map-named:matcher"])
+
+
 # ---------------------------------------------------------------------------------------------------- automorph_check / iso_finder
 class RecordingRng:
     """proxy around a numpy Generator recording the results of choice / permutation"""
@@ -658,6 +723,7 @@ def run(ctx):
         check_relabel(res, drv, cases[k:k + 2000], "relabel")
     res.notes.append("exhaustive: relabel on every graph with n<=4 vertices x every permutation (64x24 + 8x6 + 2x2 + 1 + 1 cases)")
     check_relabel_map(res, drv, rng, 150 if quick else 1500, 8)
+    check_relabel_map_named(res, drv, rng, 120 if quick else 1200, 8)
     check_automorph(res, drv, rng, 100 if quick else 1000, 7)
     check_iso_finder(res, drv, rng, 220 if quick else 2500, 6 if quick else 7, 25 if quick else 250)
     # orbit explorers: all graphs n<=4 (quick) / n<=5 (thorough), random up to 7
@@ -684,6 +750,7 @@ def search(ctx, res, proof_broken):
     check_lc_orbit(res, drv, orb, rng, graphs, 3, cache)
     check_scripted(res, drv, orb, rng, False, cache)
     check_relabel_map(res, drv, rng, 500, 8)
+    check_relabel_map_named(res, drv, rng, 500, 8)
     drv.close()
 
 
